@@ -6,6 +6,12 @@ import os
 HERE = os.path.dirname(os.path.dirname(os.path.abspath(__file__)))
 
 CHECKS = {
+    "C07": dict(
+        text="Static decision, on every path (exceptional edges included) of all 22 *_read_bin decoders, 25 *_write_bin/_write_str encoders and the *_size_bin functions, of the validation and length clauses: no decoder returns normally without error with a point not checked by *_on_curve after its last write (DEC-VALID), with an unmatched tag byte (DEC-TAG) or an unmatched length (DEC-LEN, evaluated per concrete length world); accepted tags are tags the encoder writes (TAG-AGREE); every accepted byte is consumed (DEC-COVER); advertised, accepted and written lengths agree (LEN-AGREE); stores through the caller's buffer are preceded by a sufficient length test (ENC-LEN); fp/fb elements are written only after the range test (RANGE-FP/-FB). Right level: these checks are present-but-never-triggered code that tests cannot distinguish from absent code; round-trip equality of values and radix arithmetic are not decided.",
+        design_ref="DESIGN.md section 3 (C07)",
+        note="Trusted: clang 14 parser/CFG/constant evaluator, the extractor, forward must-dataflow with branch atoms (path-insensitive except for the concrete value of `len`), parameter-write summaries; aliasing between distinct locals ignored. Floors: 22 decoders, 7 point decoders, 22 encoders. Rules validated on every run by violating/conforming miniatures (sa/selftest/c07.c).",
+        technique="forward must-dataflow (guard dominance) over the exploded clang CFG + sibling/table agreement (size/read/write constants)",
+    ),
     "C19": dict(
         text="Static decision, on all paths of all library functions under the BASE, DYNAMIC-allocation and MULTI(pthread) configuration headers, of the structural clauses of the error-handling/context state machine: handler chain restored (TRY-BALANCE, REGION-DEPTH), finaliser exactly once and before the handler (FINALLY-ONCE/-EXIT), nothing in a finaliser can clear the pending exception (FINALLY-PURE), sticky code stored first and a throw with a handler never falls through (THROW-CODE), protocol fields written only by the protocol (CTX-WRITERS), no writable shared state besides the (thread-local under MULTI) context pointer (NO-SHARED-STATE). This is the right level because these clauses are visible in the shape of the code on every path and the suite runs one nesting shape in one configuration; value-level equality after re-parameterisation is not decided.",
         design_ref="DESIGN.md section 3 (C19)",
